@@ -523,6 +523,27 @@ func runC19(c *run.Ctx, s *kit.Summary) {
 		}
 		ks = append(ks, mk("headers", "flag.headers", "c19.headers", texts, or))
 	}
+	// every special name in every case variant: each spelling is a key of its own, stored as typed
+	for _, name := range gen.SpecialHeaderNames {
+		vs := gen.CaseVariants(name)
+		var texts []string
+		var acc accum
+		for round := 0; round < 2; round++ {
+			for i, k := range vs {
+				val := fmt.Sprintf("v%d%d", round, i)
+				texts = append(texts, k+": "+val)
+				acc.add(k, val)
+			}
+		}
+		want := "ok " + strings.Repeat("k", len(texts)) + " " + acc.String()
+		ks = append(ks, mk("headers", "flag.headers", "c19.headers", texts, func(out string, s *kit.Summary, k *kase) {
+			s.Count("headers:special_name_case_variants")
+			if out != want {
+				viol(s, k, "headers_accumulate", "a -header key is not stored exactly as typed (spellings differing only by case are keys of their own)", want, out,
+					map[string]interface{}{"special_name": true})
+			}
+		}))
+	}
 	for _, t := range gen.HeaderMalformed {
 		t := t
 		for _, texts := range [][]string{{t}, {"A: 1", t, "A: 2"}} {
